@@ -2,7 +2,7 @@
    Full-strength statement: C07_statement (Cluster/Statements.v). Proved so far: the theorems below; what is
    not yet proved is decided on every run by the lock-step co-simulation (model = implementation on every
    explored schedule) together with the monitors run on the implementation's own observations. *)
-From RaftV Require Import Cluster.Statements Proofs.RVSpec Proofs.AESpec.
+From RaftV Require Import Cluster.Statements Proofs.RVSpec Proofs.AESpec Proofs.ElectSpec Proofs.CommitSpec Proofs.ReplySpec.
 Open Scope N_scope.
 
 (* RequestVote, every voter state x every request *)
@@ -21,3 +21,45 @@ Print Assumptions C07_vote_refused_if_voted_other.
 Theorem C07_step_down_frame : forall now n l t, vol (become_follower now n l t) = vol n.
 Proof. exact vol_become_follower. Qed.
 Print Assumptions C07_step_down_frame.
+
+(* How a node becomes leader, for every node state and every vote reply: only by processing the reply to a REAL vote
+   request (of a term not older than its own) while it is a (pre)candidate and the votes counted for that election -
+   its own and the granted replies, this one included - are a majority of the voters of its configuration ... *)
+Theorem C07_leader_only_with_counted_majority : forall now n rid peer pv q p,
+  n_role n <> Leader -> n_role (l_rv_reply now n rid peer pv q p) = Leader ->
+  pv = false /\ n_term n <= rv_term q /\
+  let n1 := if rvr_granted p then bump_round n rid else n in
+  has_quorum (conf_of n1) (round_count n1 rid) = true /\
+  (n_role n = Candidate \/ n_role n = PreCandidate).
+Proof. exact rv_reply_becomes_leader. Qed.
+Print Assumptions C07_leader_only_with_counted_majority.
+
+(* ... or, in election(), as the only voter of its configuration, and then in a term of its own (fix D21). *)
+Theorem C07_single_voter_election_takes_a_new_term : forall now n,
+  n_role n <> Leader -> n_role (l_election now n) = Leader ->
+  is_single (conf_of n) (n_id n) = true /\ n_term (l_election now n) = n_term n + 1.
+Proof. exact election_becomes_leader. Qed.
+Print Assumptions C07_single_voter_election_takes_a_new_term.
+
+(* commitLoop, for every node state: the commit index only moves forward, only on a leader, and only to an entry of
+   the leader's own term whose index a majority of the voters of its configuration have acknowledged (matchIndex),
+   the leader counting itself only if it is a voter (fix D22). *)
+Theorem C07_commit_needs_voter_majority : forall now n,
+  let n' := lp_commit now n in
+  n_commit n <= n_commit n' /\
+  (n_commit n < n_commit n' ->
+   n_role n = Leader /\
+   exists e, In e (n_log n) /\ e_index e = n_commit n' /\ e_term e = n_term n /\
+             has_quorum (conf_of n) (count_matches n (e_index e)) = true).
+Proof. exact lp_commit_spec. Qed.
+Print Assumptions C07_commit_needs_voter_majority.
+
+(* sendAppendEntries after the RPC, for every leader state and every reply: the matchIndex of a follower changes only
+   through a SUCCESS reply of that follower to a request sent in the CURRENT term (fix D1), and becomes prev + len. *)
+Theorem C07_match_index_only_by_current_term_success : forall now n rid peer g q r p,
+  let n' := fst (l_ae_reply now n rid peer g q r) in
+  fm n' p <> fm n p ->
+  p = peer /\ aer_success r = true /\ ae_term q = n_term n /\ n_role n = Leader /\ aer_term r <= n_term n /\
+  fm n' p = ae_prev_index q + N.of_nat (length (ae_entries q)).
+Proof. exact ae_reply_match. Qed.
+Print Assumptions C07_match_index_only_by_current_term_success.
